@@ -128,6 +128,9 @@ class World:
             sp = self.space(p)
             for cname, crec in cells.items():
                 self._new_cells(sp, cname, crec)
+        for p, bs in d["bases"]:
+            if bs:
+                self.space(p).add_bases(*[self.space(b) for b in bs])
         for p, refs in d["refs"]:
             sp = self.space(p)
             for rname, r in refs.items():
@@ -140,9 +143,6 @@ class World:
             cc = self.space(p).cells[c]
             cc.set_doc(DOC_CORPUS[k], insert_indents=True)
             self.src2fid[(cc.formula.source.strip(), c)] = self.fid_of_build[(tuple(p), c)]
-        for p, bs in d["bases"]:
-            if bs:
-                self.space(p).add_bases(*[self.space(b) for b in bs])
         for n, v in d.get("inp", []):
             c = self.cells_of(n[:3])
             c[tuple(n[3])] = (None if v == NONE_V else v)
